@@ -209,7 +209,8 @@ _ALL = set(R_CONVS)
 _NOT_N_PCT = _ALL - {'n', '%'}
 # flag -> conversions on which it has defined behaviour
 R_FLAG_OK = {
-    '#': set('oxXaAeEfFgG'),        # C99: "For other conversions, the behavior is undefined."
+    '#': set('oxXaAeEfFgG') | {'m'},  # C99: "For other conversions, the behavior is undefined."; glibc >= 2.35, printf(3):
+                                      # m prints "strerrorname_np(errno) in the alternate form" (finding D15: c.py rejects %#m)
     '0': set('diouxXaAeEfFgG'),     # C99: d i o u x X a A e E f F g G; "For other conversions, the behavior is undefined."
     "'": set('diufFgG'),            # SUSv2: decimal conversions i d u f F g G; otherwise undefined
     '-': _NOT_N_PCT,
@@ -578,7 +579,11 @@ def oracle_fmtc(s):
         raise
     except M.Error as e:
         if ref[0] == 'ok':
-            return ('acceptance', 'rejected with %s although printf(3) defines it: arguments %s' % (type(e).__name__, ref[1][:8]), 'n/a', 'reject')
+            # D15, structural predicate: FlagError about '#' raised for a directive whose conversion is m
+            d15 = (type(e).__name__ == 'FlagError' and len(e.args) == 2 and e.args[1] == '#'
+                   and any(k == 'dir' and d['conv'] == 'm' and '#' in d['flags'] and d['text'] == e.args[0] for k, d in ref[3]))
+            return ('acceptance', 'rejected with %s%r although printf(3) defines it: arguments %s' % (type(e).__name__, e.args[1:], ref[1][:8]),
+                    'n/a', 'reject', 'D15' if d15 else None)
         return (None, None, 'n/a', 'reject')
     except Exception as e:  # noqa
         return ('foreign-exception', 'FormatString raised %s (not a strformat.c.Error); reference: %s' % (type(e).__name__, ref[0] if ref[0] == 'ok' else ref[1]), 'n/a', 'crash')
@@ -935,10 +940,13 @@ def run_fmtc(ctx, maxd, cases, sizes, seen):
         if not isinstance(v, tuple):
             ctx.fail('oracle-' + str(v)[:30].replace(' ', '-'), dict(origin=d[s], **_show(s)), 'the oracle did not finish on this input: %s' % (v,))
             continue
-        kind, what, gstat, acc = v
+        kind, what, gstat, acc = v[:4]
+        finding = v[4] if len(v) > 4 else None
         ctx.count('glibc:' + gstat)
         if kind is not None:
-            ctx.fail(kind, dict(origin=d[s], **_show(s)), what)
+            if finding:
+                ctx.count('finding:' + finding)
+            ctx.fail(kind, dict(origin=d[s], **_show(s)), what, finding=finding)
     if len(seen) < 3000000:
         seen.update(strs)
 
@@ -961,7 +969,7 @@ def replay(ctx, path):
         r = impl_fmtc(s)
         v = oracle_fmtc(s)
         print(json.dumps(_show(s)), '\n  model:', m[:300], '\n  impl: ', r[:300], '\n  oracle:', v)
-        bad += (m != r) or (v[0] is not None)
+        bad += (m != r) or (v[0] is not None and (len(v) < 5 or v[4] is None))
     print('%d of %d replayed inputs still fail' % (bad, len(strs)))
     return 1 if bad else 0
 
